@@ -83,7 +83,7 @@ def oracle(name, ib, mb, meta):
         if live > len(rec) * (1 + capf + SLACK):
             fails.append((i, '%d allocations live with %d interface record(s): more than the fixed bound of record + %d observations + %d other blocks each' % (live, len(rec), capf, SLACK))); break
         if d['tos'] == 0 and d['opc'] == 8: pend[ctx] = True
-        if d['tos'] == 0 and d['opc'] == 8 and len(rec) == 1 and live != 1:
+        if d['tos'] == 0 and d['opc'] == 8 and len(rec) == 1 and live > 1:
             fails.append((i, 'after the Reset %d allocations are live; only the interface record may remain' % live)); break
     if name.startswith('rep_') and len(lives) >= 60:
         # the same request block repeated: whatever is cached is cached after the first rounds; growth afterwards is a leak
